@@ -31,6 +31,9 @@ type Server struct {
 	Log     []Query
 	Respond func(q Query) (status int, body []byte)
 	Now     func() time.Time
+	// Age, when > 0, is sent as the HTTP Age header of every answer (an answer
+	// served through an HTTP cache, RFC 8484 section 5.1)
+	Age int
 }
 
 // NewServer starts a server; respond is called for every request.
@@ -63,8 +66,12 @@ func (s *Server) handle(w http.ResponseWriter, r *http.Request) {
 	s.mu.Lock()
 	s.Log = append(s.Log, q)
 	respond := s.Respond
+	age := s.Age
 	s.mu.Unlock()
 	status, out := respond(q)
+	if age > 0 {
+		w.Header().Set("Age", strconv.Itoa(age))
+	}
 	w.Header().Set("Content-Type", "application/dns-message")
 	w.Header().Set("Content-Length", strconv.Itoa(len(out)))
 	w.WriteHeader(status)
@@ -73,6 +80,9 @@ func (s *Server) handle(w http.ResponseWriter, r *http.Request) {
 
 // SetRespond swaps the responder.
 func (s *Server) SetRespond(f func(q Query) (int, []byte)) { s.mu.Lock(); s.Respond = f; s.mu.Unlock() }
+
+// SetAge sets the Age header value (0 = none).
+func (s *Server) SetAge(a int) { s.mu.Lock(); s.Age = a; s.mu.Unlock() }
 
 // TakeLog returns and clears the query log.
 func (s *Server) TakeLog() []Query {
